@@ -49,7 +49,22 @@ const (
 
 var opNames = [...]string{"start", "lock", "rlock", "wgadd", "wgdone", "wgwait", "spawn", "spin", "obs", "wait", "acc", "end"}
 
-func (k OpKind) String() string { return opNames[k] }
+func (k OpKind) String() string {
+	if int(k) < len(opNames) {
+		return opNames[k]
+	}
+	switch k {
+	case OpChanSend:
+		return "chsend"
+	case OpChanRecv:
+		return "chrecv"
+	case OpSelect:
+		return "select"
+	case OpChanClose:
+		return "chclose"
+	}
+	return "op?"
+}
 
 // ObjRef is embedded in every shim object; it gives the object a per-execution identity.
 type ObjRef struct {
@@ -92,6 +107,7 @@ type thread struct {
 	// fairness for spin loops: threads that must step (or be disabled/done) before this one is
 	// enabled again, with their step counts at the time of the yield
 	spinWait map[*thread]int
+	ch       *chanOp // pending channel operation (chan.go)
 }
 
 // PointRec describes one recorded choice point of an execution.
@@ -148,8 +164,9 @@ type Exec struct {
 	Sites      map[int32]bool // access sites that are scheduling points in this execution
 	TraceLog   []string
 	hb         map[string][]uint32 // harness HB keys
-	det        bool                // deterministic tail: no further choice points are recorded
-	fp         uint64              // running fingerprint of the Mazurkiewicz trace (xor of event hashes)
+	chans      map[unsafe.Pointer]*chanState
+	det        bool   // deterministic tail: no further choice points are recorded
+	fp         uint64 // running fingerprint of the Mazurkiewicz trace (xor of event hashes)
 	divergence string
 }
 
@@ -338,6 +355,8 @@ func (e *Exec) isEnabled(t *thread) bool {
 		return w == nil || w.n == 0
 	case OpWait:
 		return t.pred()
+	case OpChanSend, OpChanRecv, OpSelect:
+		return e.chanEnabled(t)
 	case OpSpin:
 		for u, n := range t.spinWait {
 			if u.done || u.nsteps != n {
